@@ -482,7 +482,12 @@ class ShmLiveness(Harness):
                         # case split on the delayed-purge flags of the datasets that have readers
                         idx = [i for i, r in enumerate(rds) if r]
                         for flags in itertools.product([0, 1], repeat=len(idx)):
-                            out.append({**base, "delayed": {str(i): f for i, f in zip(idx, flags)}})
+                            b2 = {**base, "delayed": {str(i): f for i, f in zip(idx, flags)}}
+                            if sum(rds) >= 4 and not any(flags):
+                                # the largest tree: also case-split on the first reader-close decisions
+                                out += [{**b2, "close0": c} for c in itertools.product([0, 1], repeat=2)]
+                            else:
+                                out.append(b2)
                     else:
                         out.append(base)
         return out
@@ -511,6 +516,7 @@ class ShmLiveness(Harness):
         ch.assume(size <= mgr.free_space + evictable)
         needed_eviction = bool(size > mgr.free_space)
         granted = False
+        nclose = 0
         for attempt in range(self.RETRIES):
             shmid, err = mgr.add("knew", size, "d")
             if err == "":
@@ -527,7 +533,11 @@ class ShmLiveness(Harness):
                 if ds is None or ds.status != DS.in_memory:
                     continue
                 for rd in sorted(ds.ongoing_reads.keys()):
-                    if attempt >= 1 or ch.flag(f"close_{key}_{rd}_{attempt}"):
+                    forced = None
+                    if attempt == 0 and params.get("close0") is not None and nclose < len(params["close0"]):
+                        forced = bool(params["close0"][nclose])
+                    nclose += 1
+                    if attempt >= 1 or (forced if forced is not None else ch.flag(f"close_{key}_{rd}_{attempt}")):
                         if key in mgr.datasets:
                             mgr.close_callback(key, rd)
             w.now = w.now + ch.int(f"dt{attempt}", 0, None)
